@@ -176,6 +176,29 @@ def lenient_then_strict(res, judge):
         case = {"file": f"out-of-range:{T}.{sc.name}", "fault": "lenient-then-strict", "value": v}
         judge.case = case
         errors.RAISE_CONTROLLER_VALUE_ERRORS = True
+        # the same module inside a MetaModule that exposes the controller (the loader derives the exposed controller's type
+        # from the embedded one while the out-of-range value sits there)
+        try:
+            inner = api.Project()
+            inner.attach_module(judge.wrapped(BytesIO(iffparse.build(chunks))).module)
+            mm = api.m.MetaModule(project=inner)
+            mm.user_defined_controllers = 1
+            mm.mappings.values[0] = mm.Mapping((1, i))
+            holder_raw = api.Synth(mm).read()
+            judge.wrapped(BytesIO(holder_raw)).module.clone()
+            res.count("lenient_loads_through_metamodule")
+        except Exception:
+            res.count("lenient_loads_through_metamodule_failed")
+        for probe in (v, sc.max + 1, v + 1000):
+            try:
+                setattr(cls(), sc.name, probe)
+            except ControllerValueError:
+                continue
+            except Exception as e:
+                res.violation(f"C18:strict-after-lenient-load:wrong-error:{type(e).__name__}", f"{T}().{sc.name} = {probe} raised {e!r}", case)
+                break
+            res.violation("C18:strict-after-lenient-load:accepted", f"after a MetaModule exposing {T}.{sc.name} (holding {v}, outside {sc.min}..{sc.max}) was loaded, {T}().{sc.name} = {probe} is accepted", case)
+            break
         for rep in range(2):
             try:
                 o = judge.wrapped(BytesIO(iffparse.build(chunks)))
@@ -197,6 +220,46 @@ def lenient_then_strict(res, judge):
                 break
             res.violation("C18:strict-after-lenient-load:accepted", f"a file holding {T}.{sc.name} = {v} (outside {sc.min}..{sc.max}) was loaded; afterwards {T}().{sc.name} = {v} is accepted "
                                                                     f"without ControllerValueError (flag is {errors.RAISE_CONTROLLER_VALUE_ERRORS!r})", case)
+            break
+
+
+def undefined_enum_then_strict(res, judge):
+    """A file whose enumerated controller holds a number that names no member: whether that load fails or goes through, the
+    number is no more a member afterwards than it was before."""
+    import rv.api as api
+    from rv.modules import MODULE_CLASSES
+    from .. import spec
+    sp = spec.load()
+    for T, t in sorted(sp.items()):
+        if T in ("Output", "MetaModule"):
+            continue
+        attached = [c for c in t.controllers if c.attached]
+        cands = [(i, sc) for i, sc in enumerate(attached) if sc.kind == "enum"]
+        if not cands:
+            continue
+        i, sc = cands[len(T) % len(cands)]
+        cls = MODULE_CLASSES[t.mtype]
+        bad = max(v for _n, v in sc.members) + 37
+        chunks = [(c[0], c[1]) for c in iffparse.parse(api.Synth(cls()).read())]
+        idx = [k for k, c in enumerate(chunks) if c[0] == b"CVAL"]
+        if i >= len(idx):
+            continue
+        chunks[idx[i]] = (b"CVAL", struct.pack("<i", bad))
+        case = {"file": f"undefined-member:{T}.{sc.name}", "fault": "undefined-enum-then-strict", "value": bad}
+        judge.case = case
+        for rep in range(2):
+            try:
+                judge.wrapped(BytesIO(iffparse.build(chunks)))
+                res.count("undefined_enum_loads_completed")
+            except Exception:
+                res.count("undefined_enum_loads_raised")
+            res.count("loads")
+            try:
+                setattr(cls(), sc.name, bad)
+            except Exception:
+                res.count("undefined_enum_assignments_rejected")
+                continue
+            res.violation("C18:strict-after-lenient-load:undefined-member-accepted", f"after loading a file holding {T}.{sc.name} = {bad} (no such member), {T}().{sc.name} = {bad} is accepted", case)
             break
 
 
@@ -670,6 +733,7 @@ def run_shard(spec_, res):
                     fifo_loads(res, judge, tracker, tdir, api.Synth(api.m.Amplifier()).read(), rng)
                 if spec_["shard"] == 1:
                     lenient_then_strict(res, judge)
+                    undefined_enum_then_strict(res, judge)
             if spec_["shard"] == 2:
                 big_file_failures(res, judge, tdir)        # outside the pathlib hook: the library opens these files its own way
             gc.collect()
